@@ -60,7 +60,13 @@ OpStep(e) ==
       c == cs[t]
       c1 == [c EXCEPT !.nops = @ + 1]
   IN
-  CASE e.kind = "load" ->
+  CASE e.loc = "ext" ->      \* an atomic / mutex outside the instance (the nfs_voucher static): only who touches a lock matters
+         [ill |-> {},
+          bad |-> When(c.k \in {"snap", "unlocked"} /\ e.kind \in {"lock", "try_lock"},
+                       {<<"C18", "a snapshot / get_base_time_unlocked performed a lock operation">>})
+             \cup When(c.k \in {"snap", "unlocked"} /\ e.kind = "store", {<<"C13", "a snapshot wrote to shared memory">>}),
+          mem |-> mem, tv |-> tv, holder |-> holder, lockView |-> lockView, cs |-> [cs EXCEPT ![t] = c1], cur |-> cur]
+    [] e.kind = "load" ->
          LET lo == IF sc THEN Len(mem[e.loc]) ELSE tv[t][e.loc]
              okrf == e.rf >= lo /\ e.rf <= Len(mem[e.loc])
              base == [tv[t] EXCEPT ![e.loc] = IF e.rf > @ THEN e.rf ELSE @]
@@ -127,6 +133,8 @@ RetComplaints(e) ==
        \cup When(r.base < c.ofloor, {<<"C13", "snapshot older than an update the same thread completed earlier">>})
        \cup When(sc /\ r.base < c.floor, {<<"C13", "snapshot older than an update that completed before it began">>})
        \cup When(e.nops > 1 + 3 * e.seqlen, {<<"C18", "snapshot took more loads than completed writes can explain">>})
+     ELSE IF c.k = "unlocked" THEN
+            When(e.nops > 4 + 3 * e.seqlen, {<<"C18", "get_base_time_unlocked took an unbounded number of steps">>})
      ELSE IF c.k = "try" THEN
             When(r.ok = 1 /\ ~c.stored, {<<"C13", "try_update reports success without committing">>})
        \cup When(r.ok = 0 /\ c.stored, {<<"C13", "try_update reports failure although it committed">>})
